@@ -1,1 +1,71 @@
-From QH Require Import Copier.
+(* Properties_C14.v — C14: the device copier delivers exactly the requested bytes and signals completion once. *)
+From Coq Require Import String List Ascii ZArith.
+From QH Require Import Bytes Value Copier Spec_C14 CopierProofs.
+Import ListNotations.
+Local Open Scope Z_scope.
+
+(* random-access source, every content, block size >= 1 and forward or open-ended range inside
+   the source: exactly the requested bytes (clipped at the end of the source), one completion, no error *)
+Theorem C14_copies_slice : forall content bs from to n,
+  1 <= bs -> 0 <= from <= Z.of_nat (length content) -> (to = -1 \/ from <= to) ->
+  (length content + 1 <= n)%nat ->
+  let c := mk_cop content false bs from to false false false false false in
+  let l := snd (c_run 0 c (CStart :: turns n)) in
+  cwritten l = wanted content from to /\ cfinished l = 1%nat /\ cerrors l = 0%nat.
+Proof. exact copies_slice. Qed.
+Print Assumptions C14_copies_slice.
+
+(* the invariant behind it: a block copy positioned inside the range copies the rest of it *)
+Theorem C14_block_copy : forall n k c,
+  healthy c -> c_pending c = PBlock -> 0 <= c_pos c < hi c ->
+  (Z.to_nat (hi c - c_pos c) <= n)%nat ->
+  let l := snd (c_run k c (turns n)) in
+  cwritten l = slice (c_content c) (c_pos c) (hi c - c_pos c) /\ cfinished l = 1%nat /\ cerrors l = 0%nat.
+Proof. exact block_copy. Qed.
+Print Assumptions C14_block_copy.
+
+(* stop(): signals completion once itself; afterwards, for every later schedule, nothing *)
+Theorem C14_stop_halts : forall ops k c,
+  Forall after_stop_op ops ->
+  let c1 := fst (c_step c CStop) in
+  cwritten (snd (c_run k c1 ops)) = [] /\ cfinished (snd (c_run k c1 ops)) = 0%nat.
+Proof. exact stop_halts. Qed.
+Print Assumptions C14_stop_halts.
+
+Theorem C14_stop_itself : forall c, snd (c_step c CStop) = [CFinished].
+Proof. exact stop_itself. Qed.
+Print Assumptions C14_stop_itself.
+
+(* failures: error followed by the single completion, nothing pending afterwards *)
+Theorem C14_start_failure : forall c,
+  (f_open_src c = true \/ f_open_dst c = true \/
+   (c_from c > 0 /\ c_seq c = false /\ (f_seek c = true \/ c_from c > clen c))) ->
+  snd (c_step c CStart) = [CError; CFinished] /\ c_pending (fst (c_step c CStart)) = c_pending c.
+Proof. exact start_failure. Qed.
+Print Assumptions C14_start_failure.
+
+Theorem C14_block_failure : forall c,
+  c_stopped c = false -> c_pending c = PBlock -> (f_read c = true \/ f_write c = true) ->
+  snd (c_step c CTurn) = [CError; CFinished] /\ c_pending (fst (c_step c CTurn)) = PNone.
+Proof. exact block_failure. Qed.
+Print Assumptions C14_block_failure.
+
+Theorem C14_idle : forall n k c, c_pending c = PNone ->
+  cwritten (snd (c_run k c (turns n))) = [] /\ cfinished (snd (c_run k c (turns n))) = 0%nat /\
+  cerrors (snd (c_run k c (turns n))) = 0%nat.
+Proof. exact idle_turns. Qed.
+Print Assumptions C14_idle.
+
+(* sequential source: every arrival partition, turns interleaved anyhow *)
+Theorem C14_sequential_copy : forall ops k c,
+  seq_ready c -> Forall seq_op ops ->
+  let l := snd (c_run k c (ops ++ [CFinish])) in
+  cwritten l = fed_bytes ops /\ cfinished l = 1%nat /\ cerrors l = 0%nat.
+Proof. exact sequential_copy. Qed.
+Print Assumptions C14_sequential_copy.
+
+Example C14_nonvacuous :
+  let c := mk_cop (B "0123456789") false 3 2 7 false false false false false in
+  cwritten (snd (c_run 0 c (CStart :: turns 11))) = B "234567" /\
+  seq_ready (fst (c_step (mk_cop [] true 5 0 (-1) false false false false false) CStart)).
+Proof. split; [vm_compute; reflexivity|apply start_seq_ready]. Qed.
